@@ -81,9 +81,11 @@ class Recorder:
         self.sample = None
         self.sample_kinds = 0
         self.known = {}
+        self.h = hashlib.sha256()
 
     def end_example(self, ops):
         self.examples += 1
+        self.h.update(repr(core.canon(core.to_jsonable(ops))).encode())
         names = tuple(o[0] for o in ops)
         if len(names) >= 2:
             self.shapes.add(hashlib.sha256(repr(names).encode()).hexdigest()[:12])
@@ -95,6 +97,20 @@ class Recorder:
 REC = Recorder()
 
 
+def pin_hypothesis():
+    """Hypothesis >= 6.13x seeds generation with constants scraped from every *local* module in
+    sys.modules (here: /repo/vopy and /verif/sim, whatever happens to be imported so far in this
+    worker).  That makes an example a function of process history; switch it off so that one
+    seed is one exactly repeatable execution."""
+    import hypothesis.internal.conjecture.providers as HP
+
+    if getattr(HP, "_vopy_verif_pinned", False):
+        return
+    empty = HP.Constants()
+    HP._get_local_constants = lambda: empty
+    HP._vopy_verif_pinned = True
+
+
 def hyp_worker(task):
     """task = (module name, machine factory name, family, index, master, max_examples, steps)."""
     import importlib
@@ -103,6 +119,7 @@ def hyp_worker(task):
     from hypothesis.stateful import run_state_machine_as_test
 
     modname, family, index, master, max_examples, steps, extra = task
+    pin_hypothesis()
     global REC
     REC = Recorder()
     mod = importlib.import_module(modname)
@@ -133,6 +150,7 @@ def hyp_worker(task):
         "sample": REC.sample,
         "viol": viol,
         "known": list(REC.known.values()),
+        "ops_digest": REC.h.hexdigest(),
         "wall": time.time() - t0,
     }
 
